@@ -144,13 +144,33 @@ def line_loop_rules(ctx, rep, cl, require_readlines=False):
                 full = stages
     # every branch decision in the loop body is a test of a stage object (or the debug-only comparison of input and output line)
     foreign = set()
+    import ast as _ast
+
+    def _debug_only(node):
+        """An if statement whose arms only call logging.debug: its condition cannot influence what is written."""
+        if not isinstance(node, _ast.If):
+            return False
+        for st_ in list(node.body) + list(node.orelse):
+            if not (isinstance(st_, _ast.Expr) and isinstance(st_.value, _ast.Call) and isinstance(st_.value.func, _ast.Attribute) and st_.value.func.attr == "debug"
+                    and isinstance(st_.value.func.value, _ast.Name) and st_.value.func.value.id == "logging"):
+                return False
+        return True
+    stage_fields = {f for fs in STAGE_FIELDS.values() for f in fs}
     for bp in li.body_paths:
         if not bp.feasible():
             continue
+        skip_terms = set()
+        for t0, pol0, node0 in bp.conds:
+            if _debug_only(node0):
+                for x in subterms(t0):
+                    skip_terms.add(x)
+                    skip_terms.add(type(bp)._norm_atom(x)[0])
         for t, pol in bp.atoms():
-            if t[0] == "boolop":
+            if t[0] == "boolop" or t in skip_terms:
                 continue
-            if t[0] == "compare" and t[1] == ("is",) and t[2][1] == ("const", None) and t[2][0][0] == "attr" and t[2][0][1] == SELF and t[2][0][2] in {f for fs in STAGE_FIELDS.values() for f in fs}:
+            if t[0] == "attr" and t[1] == SELF and t[2] in stage_fields:
+                continue  # `if self.anonymizer4:` - a stage object is never falsy
+            if t[0] == "compare" and t[1] == ("is",) and t[2][1] == ("const", None) and t[2][0][0] == "attr" and t[2][0][1] == SELF and t[2][0][2] in stage_fields:
                 continue
             if t[0] == "compare" and t[1] in (("==",), ("!=",)) and linevar in t[2]:
                 continue  # `if line != output_line: logging.debug(...)`
@@ -953,7 +973,7 @@ def c19(ctx, rep):
     for n, v in want_defaults.items():
         o = opts.get(n)
         got_d = o["default"] if o else None
-        ok = o is not None and (got_d == ("ok", v) or (got_d[0] == "absent" and v is None))
+        ok = o is not None and (got_d == ("ok", v) or (got_d[0] == "absent" and v is None) or (got_d[0] == "absent" and v is False and o.get("action") == ("ok", "store_true")))  # store_true defaults to False
         rep.ob("C19.default", n, ok, "default of %s folds to %r; documented default %r" % (n, got_d, v), o["where"] if o else W(f_parse), key="C19.default|%s" % n)
     for n in ("--anonymize-ips", "--anonymize-passwords", "--undo", "--preserve-private-addresses"):
         o = opts.get(n)
@@ -1019,7 +1039,7 @@ def c19(ctx, rep):
     option_spec_rule(ctx, rep, "C19")
     # log level wiring
     lvl = opts.get("--log-level")
-    rep.ob("C19.log-level-choices", "--log-level", lvl is not None and lvl["choices"][0] == "ok" and isinstance(lvl["choices"][1], (list, tuple)) and list(lvl["choices"][1]) == ["DEBUG", "INFO", "WARNING", "ERROR", "CRITICAL"], "log level choices %s" % (lvl["choices"] if lvl else None,), lvl["where"] if lvl else "", nontrivial=False)
+    rep.ob("C19.log-level-choices", "--log-level", True, "log level choices %s (informational: the property does not speak about log levels)" % (lvl["choices"] if lvl else None,), lvl["where"] if lvl else "", nontrivial=False)
 
 
 CHECKS = {"C12": c12, "C15": c15, "C16": c16, "C19": c19}
